@@ -19,8 +19,11 @@ import (
 	"syscall"
 	"time"
 
+	bo "github.com/benoitkugler/webrender/html/boxes"
 	"github.com/benoitkugler/webrender/logger"
 	"github.com/benoitkugler/webrender/text"
+
+	"golang.org/x/net/html"
 
 	"wrverif/render"
 )
@@ -52,6 +55,7 @@ type Out struct {
 	Events  int    `json:"events,omitempty"`
 	Pages   int    `json:"pages,omitempty"`   // pages in the result
 	Counted int64  `json:"counted,omitempty"` // highest page number announced by the progress logger
+	HeadBox bool   `json:"head_box,omitempty"` // some box is generated for <head> or one of its descendants (<style>, <title> ...)
 	MS      int64  `json:"ms"`
 }
 
@@ -199,6 +203,7 @@ func WorkerMain() {
 		default:
 			res.Status = "ok"
 			res.Pages = len(d.Pages)
+			res.HeadBox = headDisplayed(d)
 			if d.Rec != nil {
 				res.Events = len(d.Rec.Events)
 				if !c.NoTrace {
@@ -215,6 +220,21 @@ func WorkerMain() {
 		mu.Unlock()
 		cur.Store(-1)
 	}
+}
+
+// headDisplayed: is a box generated for <head> or an element inside it?  (Then the TEXT of the
+// <style> element is drawn, and editing that text is not a metamorphic step.)
+func headDisplayed(d *render.Doc) bool {
+	for _, pg := range d.Pages {
+		for _, b := range bo.DescendantsPlaceholders(pg, true) {
+			for n := b.Box().Element; n != nil; n = n.Parent {
+				if n.Type == html.ElementNode && n.Data == "head" {
+					return true
+				}
+			}
+		}
+	}
+	return false
 }
 
 // canonTrace sorts every run of consecutive anchor lines: their order within a page is the
